@@ -617,6 +617,11 @@ Proof.
   intros H. unfold sn_send_owned. destruct (gw_st s); try destruct (len (pack p) <=? MaxPacketLen);
     (split; [cbn [st_of ok stop fst]; ti_tac|cbn; try apply no_end_nil; intros te [E|[]]; discriminate E]).
 Qed.
+Lemma pt_sn_send_now s p : TI' s -> PT (sn_send_now s p).
+Proof.
+  intros H. unfold sn_send_now. destruct (len (pack p) <=? MaxPacketLen);
+    (split; [cbn [st_of ok stop fst]; ti_tac|cbn; try apply no_end_nil; intros te [E|[]]; discriminate E]).
+Qed.
 Lemma pt_andthen r g : PT r -> (forall s1, TI' s1 -> PT (g s1)) -> PT (andthen r g).
 Proof.
   intros [Hr Ho] Hg. destruct r as [[s1 o1] [|e]]; cbn [andthen]; [|split; assumption].
@@ -793,7 +798,7 @@ Proof.
     + pt_auto; ti_tac.
     + cbv zeta. apply N.eqb_neq in Hd.
       apply pt_andthen; [|intros s1 H1; apply pt_ok; ti_tac].
-      apply pt_sn_send_owned. apply (TI_req _ _ _ _ _ _ (if negb (gw_keepalive s =? 0) && (gw_keepalive s <? dur)
+      apply pt_sn_send_now. apply (TI_req _ _ _ _ _ _ (if negb (gw_keepalive s =? 0) && (gw_keepalive s <? dur)
          then arm (arm (s <| gw_next_obj := gw_next_obj s + 1 |>) (TmPing (gw_next_obj s)) (gw_keepalive s * 1000))
                   (TmPingCancel (gw_next_obj s)) (dur * 1000) else s)); [repeat split; reflexivity|].
       destruct (negb (gw_keepalive s =? 0) && (gw_keepalive s <? dur)); [|exact H].
